@@ -217,7 +217,7 @@ c_set(struct Camera* c, struct CameraProperties* p)
     // (only a camera that is not running rejects settings here: a rejection while it runs makes the HAL stop it from the
     // client's thread while the source thread is using it - a device fault during acquisition, which is C09's domain)
     static long nset[MAXS];
-    long k = m->running ? -1 : nset[m->s]++;
+    long k = (m->running || c->state == DeviceState_Running) ? -1 : nset[m->s]++; // (also not while the HAL still says Running)
     if (SC[m->s].setfail_at >= 0 && k >= SC[m->s].setfail_at && k < SC[m->s].setfail_at + SC[m->s].setfail_n) {
         ev("{\"e\":\"CamSetFail\",\"s\":%d,\"hd\":%d}", m->s, m->h);
         return Device_Err; // settings rejected (nothing applied)
